@@ -49,8 +49,8 @@ def mode_of(tr):
     return None
 
 
-def mode_split(ctx, db):
-    rid = ctx.rule('C05.mode-split', 'PATHS+COUNT', 'coro_queue::resume, suspend_point::suspend_now, suspend_point::await_suspend, coro_queue::create_suspend_point branch on '
+def mode_split(ctx, db, rid_='C05.mode-split'):
+    rid = ctx.rule(rid_, 'PATHS+COUNT', 'coro_queue::resume, suspend_point::suspend_now, suspend_point::await_suspend, coro_queue::create_suspend_point branch on '
                    'coroutine mode; on the active edge they only enqueue (no direct resume, no install_queue_*: a nested activation would pre-empt the running coroutine); on '
                    'the inactive edge a handle runs only inside a callable given to install_queue_and_call', floor=4)
     for name in ('cocls::coro_queue::resume', 'cocls::suspend_point::suspend_now', 'cocls::suspend_point::await_suspend', 'cocls::coro_queue::create_suspend_point'):
@@ -107,8 +107,8 @@ def _ancestors(db, f):
     return out
 
 
-def direct_resume(ctx, db):
-    rid = ctx.rule('C05.direct-resume', 'WHO', 'every direct coroutine_handle::resume()/operator() in the library is structurally one of: K2 the drain loop or a callable executed by '
+def direct_resume(ctx, db, rid_='C05.direct-resume'):
+    rid = ctx.rule(rid_, 'WHO', 'every direct coroutine_handle::resume()/operator() in the library is structurally one of: K2 the drain loop or a callable executed by '
                    'install_queue_and_call; K3 start of a not-yet-started child (handle from start_promise); K4 a generator\'s own handle (from_promise / next_async); '
                    'K5 the body of a freshly created thread', floor=8)
     passed_to_install = set(); thread_bodies = set()
@@ -216,8 +216,8 @@ def _inherited_kind(db, f, passed_to_install, thread_bodies, depth=3, seen=None)
     return '%s (inherited: helper reached only from such contexts)' % sorted(kinds)[0] if len(kinds) == 1 else None
 
 
-def drain_before_restore(ctx, db):
-    rid = ctx.rule('C05.drain-before-restore', 'ORDER+PATHS', 'the trailer of install_queue_and_call drains the ready queue (flush_queue) before it restores the previous mode flag, on '
+def drain_before_restore(ctx, db, rid_='C05.drain-before-restore'):
+    rid = ctx.rule(rid_, 'ORDER+PATHS', 'the trailer of install_queue_and_call drains the ready queue (flush_queue) before it restores the previous mode flag, on '
                    'every path and unconditionally; the drain loop exits only on an empty queue, and removes a handle from the queue before resuming it', floor=3)
     lams = lambdas_of(db, 'cocls::coro_queue::install_queue_and_call')
     if not lams:
@@ -299,8 +299,8 @@ def drain_before_restore(ctx, db):
                trace=fmt_trace(bad[1]) if bad and bad[1] else None)
 
 
-def who_writes_instance(ctx, db):
-    rid = ctx.rule('C05.who-writes-instance', 'WHO', 'the coroutine-mode flag coro_queue::instance is written only by install_queue_and_call (exchange) and by its trailer', floor=2)
+def who_writes_instance(ctx, db, rid_='C05.who-writes-instance'):
+    rid = ctx.rule(rid_, 'WHO', 'the coroutine-mode flag coro_queue::instance is written only by install_queue_and_call (exchange) and by its trailer', floor=2)
 
     def pred(f, e):
         if e.k == 'write' and (e.get('path') or '') == INSTANCE:
@@ -351,8 +351,8 @@ def fifo_ops(ctx, db, rid='C05.fifo-ops'):
         ctx.ob(rid, 'cocls::coro_queue', 'src/cocls/coro_queue.h:0', True, 'no library function calls swap_coroutine / resume_handle_next')
 
 
-def pause_rule(ctx, db):
-    rid = ctx.rule('C05.pause-round-robin', 'ORDER+SIBLINGS', 'pause::await_suspend and its user-level sibling coro_queue::swap_coroutine (the building block for awaiters that yield): in coroutine mode the '
+def pause_rule(ctx, db, rid_='C05.pause-round-robin'):
+    rid = ctx.rule(rid_, 'ORDER+SIBLINGS', 'pause::await_suspend and its user-level sibling coro_queue::swap_coroutine (the building block for awaiters that yield): in coroutine mode the '
                    'yielding coroutine is appended at the tail before the head is taken, the head is removed, and exactly that head is transferred to; in normal mode nothing is queued', floor=2)
     in_queue = lambda caller, ev, callee: class_of(db, callee).startswith('cocls::coro_queue')      # push()/pop() style helpers of the queue
     both = traces_of(db, 'cocls::pause::await_suspend', depth=0, inline=in_queue, per_instance=False) + traces_of(db, 'cocls::coro_queue::swap_coroutine', depth=0, inline=in_queue, per_instance=False)
@@ -401,10 +401,10 @@ INSTALL_UNGUARDED = {
 }
 
 
-def install_only_inactive(ctx, db):
+def install_only_inactive(ctx, db, rid_='C05.install-only-inactive'):
     """a nested install_queue_* shares the thread's single ready queue: its trailer drains everything that is queued, in the middle of the
     running coroutine.  So every site that installs a queue does so on the normal-mode edge of a mode test"""
-    rid = ctx.rule('C05.install-only-inactive', 'WHO+PATHS', 'every call of install_queue_and_call / install_queue_and_resume in the library lies on the edge where coroutine mode tested '
+    rid = ctx.rule(rid_, 'WHO+PATHS', 'every call of install_queue_and_call / install_queue_and_resume in the library lies on the edge where coroutine mode tested '
                    'inactive (a nested activation drains the whole ready queue inside the running coroutine); the tabled unguarded sites are the wrapper, the initial awaiter '
                    '(guarded by await_ready = is_active) and the blocking scheduler::start', floor=5)
     T = htracer(db, extra=inline_only('cocls::coro_queue::is_active'))
